@@ -69,6 +69,8 @@ func buildStream(name string, cfg *config) (Stream, map[string]string, error) {
 		return buildPrograms(cfg.tier), nil, nil
 	case name == "infix":
 		return buildInfix(cfg.tier), nil, nil
+	case name == "prattseq":
+		return newPrattStream(cfg.tier, cfg.seed), nil, nil
 	case name == "mutants":
 		n := 2000
 		if thorough {
@@ -762,8 +764,8 @@ func parentMain(a lib.Args, cfg *config) {
 	out := lib.NewOut(a.Out)
 	out.Rule = "nontrivial = an input whose evaluation reached the generator (model-tie cases); evaluations counts every (input, entry point) run"
 
-	order := []string{"builtins", "forms", "specials", "programs", "typed", "infix", "mutants", "tokext", "tokcore"}
-	chunk := map[string]int{"specials": 1, "forms": 1500, "builtins": 800, "programs": 150, "typed": 150, "infix": 400, "mutants": 100, "tokext": 8000, "tokcore": 8000}
+	order := []string{"builtins", "forms", "specials", "programs", "typed", "infix", "prattseq", "mutants", "tokext", "tokcore"}
+	chunk := map[string]int{"specials": 1, "forms": 1500, "builtins": 800, "programs": 150, "typed": 150, "infix": 400, "prattseq": 2500, "mutants": 100, "tokext": 8000, "tokcore": 8000}
 	inputTimeout := 10 * time.Second
 	if cfg.tier == "thorough" {
 		inputTimeout = 20 * time.Second
